@@ -113,6 +113,25 @@ CLAIMED["C11"] = dict(
     ),
 )
 
+CLAIMED["C01"] = dict(
+    category="exploration",
+    design_ref="DESIGN.md section 4 (C01)",
+    technique="deterministic simulation: seeded request histories on a preprocessed problem with injected failures of the user callables and budget cut-offs, checked request by request against a memo model and the harness's own evaluation of the user functions",
+    text=(
+        "Each run builds a problem from a tape-chosen design space (bounded, [0,1], equal bounds, one-sided, unbounded components, optional integer "
+        "variable), a scalar, a vector (dense or sparse Jacobian) and a linear function, and a preprocessing configuration (normalised or not, database, "
+        "Jacobian storage, rounding, user or finite-difference derivatives), then issues up to 25 value/Jacobian requests over <=5 points through "
+        "evaluate/jac and evaluate_functions in normalised or physical coordinates, interleaved with faults (the next user call raises or returns NaN, the "
+        "budget runs out) and database.clear(). Per request: value equals the user function at the independently recomputed physical point; Jacobian is "
+        "the derivative in the caller's coordinates; the database holds exactly that value and the physical Jacobian under the physical point; a recorded "
+        "request does not call the user function again; a failed request leaves no record."
+    ),
+    note=(
+        "The simulator contributes the history x fault dimension; the 'for all design spaces, all functions' dimension is sampled per run, not enumerated. "
+        "Finite-difference Jacobians compared to 2e-4 and not on integer columns; fractional values of integer variables only with rounding on."
+    ),
+)
+
 NOT_APPLICABLE = {
     "C02": "in-memory data structure driven by one caller: no schedule, clock, I/O or fault for a simulator to own; a history of edits is an input to a deterministic function (model-based property testing, another technique)",
     "C06": "deterministic numerics: the result is a function of the coupled system and settings; the only schedule-dependent part (parallel Jacobi) is decided under C13",
